@@ -48,9 +48,21 @@ def run(ctx, report):
     report.check(got == {"i": "italics", "b": "bold", "u": "underline"}, "R-TABLE-REF", t, "SAMI: i / b / u elements mean italics / bold / underline",
                  got, "1")
     tt = ctx.index.get_function(SAMI, "SAMIReader._translate_tag")
-    tests = [src(n.test) for n in walk_no_nested(tt.node) if isinstance(n, ast.If) and "_get_style_name_from_tag" in src(n)]
-    ok = any(sorted(re.findall(r"tag\.name == '(\w)'", x)) == ["b", "i", "u"] for x in tests)
-    report.check(ok, "R-COMPLETE-CASES", tt, "SAMI: exactly the i, b, u elements are turned into style nodes", tests, "1")
+    ifs = [n for n in walk_no_nested(tt.node) if isinstance(n, ast.If) and
+           any("_get_style_name_from_tag" in src(b_) for b_ in n.body)]
+    if len(ifs) != 1:
+        raise AnalysisError(f"_translate_tag: branch that creates style nodes not found ({len(ifs)} candidates)")
+    tagname = tt.params[1]
+    selected = []
+    for nm in ("i", "b", "u", "I", "br", "span", "p", "em", "strong", "font", "x"):
+        try:
+            if folder.eval_in(tt.module, ifs[0].test, {tagname: Stub("tag", {"name": nm})}):
+                selected.append(nm)
+        except AnalysisError as e:
+            raise AnalysisError(f"_translate_tag: style-branch test cannot be folded: {e}")
+    report.check(selected == ["i", "b", "u"], "R-COMPLETE-CASES", (tt, ifs[0]),
+                 "SAMI: exactly the i, b, u elements are turned into style nodes",
+                 {"test": src(ifs[0].test), "element_names_selected": selected}, "1")
     # DFXP
     dw = ctx.index.get_function(DFXP, "_recreate_style")
     dr = ctx.index.get_function(DFXP, "DFXPReader._convert_style")
